@@ -21,6 +21,8 @@ func checkC14(c *Ctx) {
 	c.Rule("C14-R4", "no store through a *Terminfo that may alias a registered database entry (stores only through fresh allocations or screen-owned copies)")
 	c.Rule("C14-R5", "LookupTerminfo: failure returns ErrTermNotFound; synthesised 256-colour/direct-colour strings are well-formed and denote SGR 38/48;5;n / 38/48;2;r;g;b; environment values compared with the documented constants")
 	c.Rule("C14-R6", "AddTerminfo stores under Name and every alias inside the database lock; the map has no other writer; every read is under the lock")
+	c.Rule("C14-R7", "the colour count agrees with the colour strings: SetFg, SetBg and SetFgBg of every entry select palette entry n for every n below the entry's colour count")
+	c.Expect("C14-R7", 60)
 	c.Expect("C14-R1", 49+30)
 	c.Expect("C14-R2", 49*3)
 	c.Expect("C14-R4", 1)
@@ -50,6 +52,7 @@ func checkC14(c *Ctx) {
 			continue
 		}
 		c14Programs(c, p, db)
+		coloursRule(c, p, db, "C14-R7")
 		c14Prefix(c, p, db)
 		c14Ownership(c, p)
 		c14Lookup(c, p)
